@@ -18,6 +18,9 @@ From FB.Spec Require Import JsonSpec.
 From FB.Spec Require Import Prog.
 From FB.Model Require Import Types Monad BuildDirs SimpleOps Builder Persist Build Run Frame.
 From FB.Proofs Require Import BuildFileLaws FrameLaws RollbackLaws CommitDirsMain.
+(* T1g: Model/BuildDirs.v and Model/CreatedFiles.v are equal to the translation of build_dirs.py / created_files.py
+   (Gen/BookGen.v, regenerated on every run); a change of those sources that the model does not follow breaks this import *)
+From FB.Proofs Require BookGenLaws.
 Import ListNotations.
 
 Theorem C10_state_after_a_committed_build : forall cf nm vers svers root w w' v (P : path -> Prop),
